@@ -742,6 +742,14 @@ func (c *hmapClassifier) condEvent(cond ast.Expr, val bool) *paths.Event {
 	if ns, nv, ok := c.normCmp(cond, val); ok {
 		s, val = ns, nv
 	}
+	// a growth point computed on demand (this.growAt() returning len(table) scaled by the load factor)
+	// is the threshold under another spelling
+	ast.Inspect(cond, func(n ast.Node) bool {
+		if call, ok := n.(*ast.CallExpr); ok && c.isDerivedThreshold(call) {
+			s = strings.ReplaceAll(s, c.norm(call), "threshold")
+		}
+		return true
+	})
 	kind := "COND"
 	// found: e.key == key (or its negation e.key != key)
 	if be, ok := ast.Unparen(cond).(*ast.BinaryExpr); ok && (be.Op == token.EQL || be.Op == token.NEQ) {
@@ -800,6 +808,27 @@ func (c *hmapClassifier) condEvent(cond ast.Expr, val bool) *paths.Event {
 		}
 	}
 	return &paths.Event{Kind: kind, Arg: fmt.Sprintf("%s=%v", s, val), Pos: cond.Pos()}
+}
+
+// isDerivedThreshold: call is a no-argument method on the receiver whose one result is computed from
+// len(<receiver>.table) and the load factor.
+func (c *hmapClassifier) isDerivedThreshold(call *ast.CallExpr) bool {
+	if len(call.Args) != 0 || c.p == nil {
+		return false
+	}
+	sel, ok := ast.Unparen(call.Fun).(*ast.SelectorExpr)
+	if !ok {
+		return false
+	}
+	if id, ok := ast.Unparen(sel.X).(*ast.Ident); !ok || id.Name != c.recv {
+		return false
+	}
+	res := helperResults(c.p, c.info, call)
+	if len(res) != 1 {
+		return false
+	}
+	txt := stripSpaces(types.ExprString(res[0]))
+	return strings.Contains(txt, "len(") && strings.Contains(txt, ".table)") && strings.Contains(txt, "loadFactor")
 }
 
 // searchLoopVerdict marks the membership test behind a search loop; searchLoopFeasible drops the
@@ -2492,6 +2521,10 @@ func (h *hmapType) checkRehash() {
 	}
 	if makes == 0 || !makesOK {
 		probs = append(probs, "the new table is not made with 2*len(table)+1 buckets")
+	}
+	if !thrOK && thr == "" && !structHasField(h.t, "threshold") {
+		// no threshold is kept: the growth test derives it from the table each time (C12.growth sees it)
+		thrOK = true
 	}
 	if !thrOK {
 		probs = append(probs, "threshold is not recomputed from the new capacity and the load factor: "+thr)
